@@ -103,21 +103,76 @@ def send_facts(prog: Program, cr: ClientRoles) -> Tuple[Dict[str, Any], List[Tup
                 conj.add('body')
         if {'strict', 'body'} <= conj:
             ok_n = True
-    none_assign = any(isinstance(cfg.nodes[i].ast, ast.Assign) and isinstance(cfg.nodes[i].ast.value, ast.Constant) and
+    none_assign = any(isinstance(cfg.nodes[i].ast, (ast.Assign, ast.Return)) and isinstance(cfg.nodes[i].ast.value, ast.Constant) and
                       cfg.nodes[i].ast.value.value is None for i in notif_region)
     facts['notification'] = f'strict∧body→error={ok_n}; response None={none_assign}'
     if not (ok_n and none_assign):
         problems.append(('INTEROP-TABLE', 'notification reply handling', f.node.lineno,
                          'for a notification (or all-notification batch) a non-empty body is an error in strict mode and the result is None: '
                          'this must agree with the server, which answers such requests with nothing'))
-    # merge of request args
-    merge = [n for n in cfg.stmt_nodes() if isinstance(n.ast, ast.Assign) and isinstance(n.ast.value, ast.Dict) and
-             all(k is None for k in n.ast.value.keys)]
-    facts['kwargs_merge'] = [norm(n.ast.value) for n in merge]
-    if not merge or [norm(v) for v in merge[0].ast.value.values] != ['self._request_args', 'kwargs']:
+    # merge of request args: what is splatted into the transport call is the client-wide arguments overridden by the per-call ones
+    from ..flow import Flow
+    fl = Flow(cfg)
+    kwp = f.node.args.kwarg.arg if f.node.args.kwarg else 'kwargs'
+    splat = [k.value for k in tc.keywords if k.arg is None]
+    order: List[str] = []
+    if len(splat) == 1:
+        for al in fl.alts(tn, splat[0]):
+            v = al.expr
+            if isinstance(v, ast.Dict) and all(k is None for k in v.keys):
+                order = [norm(x) for x in v.values]
+            elif isinstance(v, ast.Call) and dotted(v.func) == 'dict' and len(v.args) == 1 and not v.keywords and isinstance(splat[0], ast.Name):
+                upd = [c for m in cfg.stmt_nodes() for c in calls_in(m) if isinstance(c.func, ast.Attribute) and c.func.attr == 'update'
+                       and dotted(c.func.value) == splat[0].id and tn.id in cfg.reachable(m) and cfg.dominated_by(tn, [m])]
+                order = [norm(v.args[0])] + [norm(c.args[0]) for c in upd if c.args]
+            else:
+                order = [norm(v)]
+    facts['kwargs_merge'] = order
+    if order != ['self._request_args', kwp]:
         problems.append(('ONE-TRANSMISSION', 'per-call transport arguments do not override the client-wide ones', f.node.lineno,
-                         'kwargs = {**self._request_args, **kwargs} expected'))
+                         f'the transport call must receive {{**self._request_args, **{kwp}}} (client-wide arguments overridden by the per-call ones); found {order}'))
     return facts, problems
+
+
+def _universal_notification(prog: Program, bn: FuncInfo) -> bool:
+    """BatchRequest.is_notification is ∀ element: element.is_notification — as all(...) over the stored requests, or as a loop
+    that returns False at the first element that is not a notification and True after the loop."""
+    rets = [x for x in walk_own(bn.node) if isinstance(x, ast.Return)]
+    if rets and all(isinstance(r.value, ast.Call) and dotted(r.value.func) == 'all' and 'is_notification' in norm(r.value)
+                    and 'self._requests' in norm(r.value) and ' not ' not in f' {norm(r.value)} ' for r in rets):
+        return True
+    cfg = CFG(bn, prog)
+    heads = [n for n in cfg.nodes if n.kind == 'next']
+    if len(heads) != 1 or dotted(heads[0].ast.iter) != 'self._requests':
+        return False
+    tv = dotted(heads[0].ast.target)
+    body = cfg.reachable(heads[0], edge_ok=lambda e: e.label != 'exhausted')
+    ok_false = ok_true = False
+    for n in cfg.stmt_nodes():
+        if n.kind != 'stmt' or not isinstance(n.ast, ast.Return):
+            continue
+        v = n.ast.value
+        if not (isinstance(v, ast.Constant) and isinstance(v.value, bool)):
+            return False
+        in_loop = n.id in body and heads[0].id in cfg.reachable(n) or (n.id in body and any(
+            classify_cond(prog, bn, g.src.ast).subject == f'{tv}.is_notification' for g in guard_edges(cfg, n)))
+        st = None
+        for g in guard_edges(cfg, n):
+            k = classify_cond(prog, bn, g.src.ast)
+            if k.kind == 'truthy' and k.subject == f'{tv}.is_notification':
+                st = (g.label == 'T') != k.negated
+        if v.value is False:
+            if st is not False:
+                return False
+            ok_false = True
+        else:
+            if st is not None:
+                return False
+            # True only once the loop is exhausted
+            if n.id in cfg.reachable(cfg.entry, avoid_edges=[e for e in cfg.succ[heads[0].id] if e.label == 'exhausted']):
+                return False
+            ok_true = True
+    return ok_false and ok_true
 
 
 def run(ck: Check, prog: Program) -> None:
@@ -148,10 +203,20 @@ def run(ck: Check, prog: Program) -> None:
                     problems.append(f'method name `{norm(a.get("method")) if a.get("method") is not None else "?"}` is not the notation\'s method argument')
                 p = a.get('params')
                 vararg, kwarg_ = f.node.args.vararg, f.node.args.kwarg
-                if not (isinstance(p, ast.BoolOp) and isinstance(p.op, ast.Or) and vararg and kwarg_ and
-                        [dotted(v) for v in p.values] == [vararg.arg, kwarg_.arg]):
+                from ..flow import Flow as _F
+                from ..util import stmt_node_of as _sno
+                _cfg = CFG(f, prog)
+                _n = _sno(_cfg, rc[0])
+                _fl = _F(_cfg)
+                p_alts = [al.expr for al in _fl.alts(_n, p)] if (p is not None and _n is not None) else []
+                if not (len(p_alts) == 1 and isinstance(p_alts[0], ast.BoolOp) and isinstance(p_alts[0].op, ast.Or) and vararg and kwarg_ and
+                        [dotted(v) for v in p_alts[0].values] == [vararg.arg, kwarg_.arg]):
                     problems.append(f'params `{norm(p) if p is not None else "?"}` is not `args or kwargs`')
                 i = a.get('id')
+                if i is not None and _n is not None:
+                    i_alts = [al.expr for al in _fl.alts(_n, i)]
+                    if len(i_alts) == 1:
+                        i = i_alts[0]
                 if want_id == 'none':
                     if not (i is None or (isinstance(i, ast.Constant) and i.value is None)):
                         problems.append(f'a notification is built with id `{norm(i)}`')
@@ -230,7 +295,14 @@ def run(ck: Check, prog: Program) -> None:
                 problems.append(f'method name `{norm(m) if m is not None else "?"}` is not the notation\'s method argument')
             p = a.get('params')
             if mname != '__getitem__':
-                if not (isinstance(p, ast.BoolOp) and [dotted(v) for v in p.values] == ['args', 'kwargs']):
+                # through locals: `params = args or kwargs`
+                from ..flow import Flow as _F
+                from ..util import stmt_node_of as _sno
+                _cfg = CFG(f, prog)
+                _n = _sno(_cfg, rc[0])
+                p_alts = [al.expr for al in _F(_cfg).alts(_n, p)] if (p is not None and _n is not None) else []
+                if not (len(p_alts) == 1 and isinstance(p_alts[0], ast.BoolOp) and isinstance(p_alts[0].op, ast.Or) and
+                        [dotted(v) for v in p_alts[0].values] == ['args', 'kwargs']):
                     problems.append(f'params `{norm(p) if p is not None else "?"}` is not `args or kwargs`')
                 stored = any(isinstance(x, ast.Call) and isinstance(x.func, ast.Attribute) and x.func.attr == 'append' and x.args and x.args[0] is rc[0]
                              for x in walk_own(f.node))
@@ -301,14 +373,40 @@ def run(ck: Check, prog: Program) -> None:
     for construct, msg, line in wp:
         ck.finding('REQUEST-WIRE', rtj.qualname, construct, rtj.module.rel, line, msg)
     # ---- IS-NOTIF-DEF ----------------------------------------------------------------------------------
+    from ..flow import Flow as _Flow
     rn = prog.func(V20 + '.Request.is_notification')
-    ok = any(isinstance(x, ast.Return) and norm(x.value) in ('self.id is None', 'self._id is None') for x in walk_own(rn.node))
+    cfg_r = CFG(rn, prog)
+    fl_r = _Flow(cfg_r)
+
+    def _id_none(c: ast.expr, pol: bool) -> Optional[bool]:
+        k = classify_cond(prog, rn, c)
+        if k.kind == 'is-none' and k.subject in ('self.id', 'self._id'):
+            return (not k.negated) == pol
+        return None
+    ok = False
+    rets_r = [n for n in cfg_r.stmt_nodes() if n.kind == 'stmt' and isinstance(n.ast, ast.Return)]
+    if rets_r:
+        ok = True
+        for n in rets_r:
+            for al in (fl_r.alts(n, n.ast.value) if n.ast.value is not None else []):
+                v = al.expr
+                direct = _id_none(v, True)
+                if direct is True and not al.guards:
+                    continue
+                if direct is True:
+                    continue
+                if isinstance(v, ast.Constant) and isinstance(v.value, bool):
+                    est = [x for x in (_id_none(c, p) for c, p in al.guards) if x is not None]
+                    if est and est[-1] == v.value:
+                        continue
+                ok = False
+            if n.ast.value is None:
+                ok = False
     ck.ob('IS-NOTIF-DEF', 'Request.is_notification ⇔ id is None', ok)
     if not ok:
         ck.finding('IS-NOTIF-DEF', rn.qualname, 'notification definition', rn.module.rel, rn.node.lineno, 'a request is a notification iff its id is None (identity, not truthiness: id 0 is a call)')
     bn = prog.func(V20 + '.BatchRequest.is_notification')
-    rets = [x for x in walk_own(bn.node) if isinstance(x, ast.Return)]
-    ok = bool(rets) and all(isinstance(r.value, ast.Call) and dotted(r.value.func) == 'all' and 'is_notification' in norm(r.value) and 'self._requests' in norm(r.value) for r in rets)
+    ok = _universal_notification(prog, bn)
     ck.ob('IS-NOTIF-DEF', 'BatchRequest.is_notification is the universal (all) over its elements', ok)
     if not ok:
         ck.finding('IS-NOTIF-DEF', bn.qualname, 'batch notification definition', bn.module.rel, bn.node.lineno,
